@@ -9,6 +9,7 @@ from __future__ import annotations
 
 from fractions import Fraction
 
+import jax
 import jax.numpy as jnp
 import numpy as np
 
@@ -30,6 +31,7 @@ META = {
 }
 KINDS = ['I', 'QU', 'IQU', 'IQUV']
 TOL = 2e-4
+ENV_VARIANTS = [{'JAX_ENABLE_X64': '0'}, {'JAX_ENABLE_X64': '1'}]
 
 
 def mueller_rot(a):
@@ -221,8 +223,65 @@ def one_case(ctx: Ctx, stream: str, i: int) -> None:
     ctx.count('angles-given-as:' + given)
 
 
+def wide_case(ctx: Ctx, stream: str, i: int) -> None:
+    """64-bit mode: single-precision Stokes data rotated by double-precision angles of large magnitude (an
+    unwrapped rotating-HWP angle): the matrix applied must be the Mueller matrix of THAT angle."""
+    from furax.landscapes import StokesPyTree
+    from furax.operators.hwp import HWPOperator
+    from furax.operators.polarizers import LinearPolarizerOperator
+    from furax.operators.qu_rotations import QURotationOperator
+    if not jax.config.jax_enable_x64:
+        ctx.count('wide:skipped-32-bit-mode')
+        return
+    rng = ctx.rng(stream, i)
+    kind = rng.choice(['QU', 'IQU', 'IQUV'])
+    nsamp = rng.choice([2, 3])
+    shape = (nsamp,)
+    cls = StokesPyTree.class_for(kind)
+    data_dt = rng.choice([jnp.float32, jnp.float32, jnp.float64])
+    st = cls.structure_for(shape, data_dt)
+    ang = np.array([rng.choice([1.0, -1.0]) * rng.uniform(1e3, 2e5) for _ in range(nsamp)], dtype=np.float64)
+    comps = [np.array([rng.choice([-3, -2, -1, 1, 2, 3, 4, 5]) + 7 * c for _ in range(nsamp)], dtype=np.float64)
+             for c in range(len(kind))]
+    x = cls(*[jnp.asarray(c, dtype=data_dt) for c in comps])
+    cfg = {'kind': kind, 'angles': ang.tolist(), 'data_dtype': str(np.dtype(data_dt)), 'angle_dtype': 'float64'}
+    rot = [restrict(mueller_rot(a), kind) for a in ang]
+    hw = restrict(M_HWP, kind)
+    ops = [('R', lambda: QURotationOperator(jnp.asarray(ang), st), rot),
+           ('R.T', lambda: QURotationOperator(jnp.asarray(ang), st).T, [m.T for m in rot]),
+           ('HWP.create', lambda: HWPOperator.create(shape, data_dt, kind, angles=jnp.asarray(ang)),
+            [rot[t].T @ hw @ rot[t] for t in range(nsamp)]),
+           ('Polarizer.create', lambda: LinearPolarizerOperator.create(shape, data_dt, kind, angles=jnp.asarray(ang)),
+            [pol_row(kind) @ rot[t] for t in range(nsamp)])]
+    xv = np.array(comps)                         # (ncomp, nsamp)
+    for label, mk, mats in ops:
+        for reduced in (False, True):
+            st_, op = safe(lambda: mk().reduce() if reduced else mk())
+            if st_ != 'ok':
+                ctx.fail(stream, i, f'wide-raises:{label}:{st_}', str(op)[:150], cfg)
+                continue
+            st2, y = safe(op.mv, x)
+            if st2 != 'ok':
+                ctx.fail(stream, i, f'wide-mv-raises:{label}:{st2}', str(y)[:150], cfg)
+                continue
+            leaves = [np.asarray(l, dtype=np.float64) for l in jax.tree.leaves(y)]
+            for t in range(nsamp):
+                want = np.asarray(mats[t]) @ xv[:, t]
+                got = np.array([l[t] for l in leaves])
+                if got.shape != want.shape or not np.allclose(got, want, rtol=1e-4, atol=1e-4):
+                    ctx.fail(stream, i, f'mueller-wide-angle:{label}{":reduced" if reduced else ""}',
+                             f'{label} with angle {ang[t]!r} on {cfg["data_dtype"]} data returns {got.tolist()}, the Mueller '
+                             f'matrix of that angle gives {want.tolist()}', cfg)
+                    break
+    ctx.count('wide:' + cfg['data_dtype'])
+    ctx.case(f'wide:{kind}:{ang.tolist()}:{cfg["data_dtype"]}', True, sample={'wide': cfg})
+
+
 def run(ctx: Ctx) -> None:
     n = 40 if ctx.tier == 'quick' else 800
     for i in range(n):
         if ctx.want('mueller', i):
             one_case(ctx, 'mueller', i)
+    for i in range(24 if ctx.tier == 'quick' else 600):
+        if ctx.want('wide', i):
+            wide_case(ctx, 'wide', i)
